@@ -174,6 +174,10 @@ def _layout(case):
         nl = m.get_n_leading()
         snap = snapshot(m)
         ops.append(("copy", lambda: m.copy(), lambda r: r, "copy"))
+        if nl >= 1:
+            # accumulation idiom of the library's own loops: start from the empty multi-image and concatenate onto it
+            ops.append(("empty.concat", lambda: m.empty().concat(m, axis=nl - 1), lambda r: r, "concat/onto-empty"))
+            ops.append(("concat.empty", lambda: m.concat(m.empty(), axis=nl - 1), lambda r: r, "concat/empty-operand"))
         ops.append(("jit", lambda: jax.jit(lambda z: z)(m), lambda r: r, "jit"))
         if nl >= 1 and len({b.shape[0] for b in snap.values()}) == 1:
             ops.append(("vmap", lambda: jax.vmap(lambda z: z)(m), lambda r: r, "vmap"))
@@ -250,6 +254,22 @@ def _layout(case):
             cnt["transitions"] += 1
             cnt["states"] += 1
             seq = names + [name]
+            if depth == 0:
+                # the result must be a multi-image of its own: changing a second, separately computed result in place
+                # (the documented in-place operations append / item assignment) must not reach the operand, otherwise the
+                # inverse of the accumulated result is judged against an operand that has silently changed. The
+                # "__check_unchanged__" step below compares the operand with its snapshot.
+                try:
+                    m3 = apply()
+                    k3 = list(m3.keys())[0]
+                    blk3 = m3[k3]
+                    nl3 = m3.get_n_leading()
+                    if nl3 >= 1:
+                        m3.append(k3[0], k3[1], blk3, axis=nl3 - 1)
+                    m3[list(m3.keys())[-1]] = jnp.zeros_like(m3[list(m3.keys())[-1]])
+                    cnt["evals"] += 1
+                except Exception as e:
+                    bad(f"C13/{fp}/alias-probe-exception", f"{seq}: in-place update of the result raised {type(e).__name__}: {e}")
             # invariant in every intermediate state: D, flags; entries preserved (concat adds the companion's)
             if m2.D != D or tuple(m2.is_torus) != flags:
                 bad(f"C13/{fp}/meta", f"{seq}: D/flags changed")
